@@ -20,7 +20,6 @@ Lemma t_le_bump T X : t_le T (bump_hb T X).
 Proof.
   split; cbn; auto; try (intros; lia).
   - intros Y. destruct (id_eqb Y X); lia.
-  - intros Y w H Hn. contradiction.
 Qed.
 
 Lemma bump_wf T X : t_wf T -> t_wf (bump_hb T X).
